@@ -79,9 +79,11 @@
   X(mzd_t *, mzd_mul_mp, (mzd_t *, mzd_t const *, mzd_t const *, int))                      \
   X(mzd_t *, mzd_addmul_mp, (mzd_t *, mzd_t const *, mzd_t const *, int))
 
+#include <m4ri/mmc.h>
 typedef struct lib {
   const char *name;
   int sse2, mmc, mzdcache, openmp, knobs;
+  mmb_t *mmc_cache; /* the 16-slot block cache of this variant (NULL when compiled out); read-only use by the harness */
 #define X(r, n, a) r(*n) a;
   LIBFUNCS(X)
   LIBFUNCS_OMP(X)
